@@ -69,6 +69,163 @@ Example C18_nonvacuous :
   ser ty_gds_GdsProperty v = SMap [("attr", SInt 5); ("value", SStr "a""b")].
 Proof. vm_compute. repeat split; reflexivity. Qed.
 
+(** * Layer 2: the JSON text (serde_json pretty printer and parser, textwrap::dedent), Serde/JsonText.v.
+    The conversion between a double and its decimal token (ryu on the way out, serde_json's number parser on
+    the way in) is NOT modelled: it is a pair of functions [fmt_f64 : Z -> string], [parse_f64 : string -> option Z]
+    over which every theorem below is universally quantified, and the ONLY thing assumed about the pair is
+    [float_pair_ok fmt_f64 parse_f64 b] for the doubles [b] that occur in the value at hand: the printed token is
+    a JSON number with a fraction or exponent, and parsing it returns [b].  This hypothesis is discharged nowhere;
+    the correspondence run tests it on the implementation for every double it generates (it was false for
+    serde_json without the feature float_roundtrip: repository commit b30a5a8).  YAML stays under correspondence. *)
+From Coq Require Import Ascii.
+From L21 Require Import Serde.JsonText Serde.JsonText_proofs.
+
+(** (7) String escaping is lossless for EVERY byte string (so for every sequence of Unicode scalar values in
+    UTF-8, with every escape class: quote, backslash, \b \t \n \f \r, \u00XX for the other control bytes,
+    everything else copied): reading the escaped form up to the closing quote gives the string back. *)
+Theorem C18_json_unescape_escape : forall s rest,
+  parse_str_body (escape_str s ++ String (chr 34) rest) = Some (s, rest).
+Proof. exact parse_str_body_escape. Qed.
+
+(** (8) Integer tokens: every i64 and every u64 reads back as itself. *)
+Theorem C18_json_int_token : forall parse_f64 z,
+  int_in_rangeb z = true -> parse_number parse_f64 (print_int z) = Some (SInt z).
+Proof. exact parse_number_print_int. Qed.
+
+Section JsonFloatOracle.
+  Variable fmt_f64 : Z -> string.            (* ryu: bit pattern -> shortest round-trip token *)
+  Variable parse_f64 : string -> option Z.   (* serde_json: number token -> bit pattern *)
+
+  (** (9) The parser reads back what the printer wrote: for every value of the fragment (maps and sequences of
+      any size, fewer than 128 nested containers = serde_json's recursion limit, all i64/u64 integers, finite
+      doubles, UTF-8 strings and keys, booleans, null). *)
+  Theorem C18_json_parse_print : forall v,
+    sval_ok v ->
+    (forall b, In b (sval_floats v) -> float_pair_ok fmt_f64 parse_f64 b) ->
+    json_parse_text parse_f64 (json_print fmt_f64 v) = JOk v.
+  Proof. intros v Hok Hfl. apply json_parse_print; assumption. Qed.
+
+  (** (10) [textwrap::dedent], which [SerializationFormat::from_str] applies first, leaves printed text alone. *)
+  Theorem C18_json_dedent_print : forall v,
+    sval_wf v ->
+    (forall b, In b (sval_floats v) -> float_pair_ok fmt_f64 parse_f64 b) ->
+    dedent (json_print fmt_f64 v) = json_print fmt_f64 v.
+  Proof. intros v Hwf Hfl. apply (dedent_json_print fmt_f64 parse_f64); assumption. Qed.
+
+  Theorem C18_json_from_str_print : forall v,
+    sval_ok v ->
+    (forall b, In b (sval_floats v) -> float_pair_ok fmt_f64 parse_f64 b) ->
+    json_from_str_text parse_f64 (json_print fmt_f64 v) = JOk v.
+  Proof. intros v Hok Hfl. apply json_from_str_print; assumption. Qed.
+
+  (** (11) The same under ONE hypothesis on the pair of functions: every finite double round-trips. *)
+  Hypothesis float_roundtrip : forall b, f64_finiteb b = true -> float_pair_ok fmt_f64 parse_f64 b.
+
+  Theorem C18_json_parse_print_all : forall v,
+    sval_ok v -> json_parse_text parse_f64 (json_print fmt_f64 v) = JOk v.
+  Proof.
+    intros v Hok. apply json_parse_print; [exact Hok|].
+    intros b Hb. apply float_roundtrip. unfold sval_ok, sval_okb in Hok. apply andb_true_iff in Hok.
+    destruct Hok as [Hwf _]. exact (wf_floats_finite v Hwf b Hb).
+  Qed.
+End JsonFloatOracle.
+
+(** (12) The shapes read from the Rust sources meet what the text layer needs: integer types within i64/u64,
+    field and variant names UTF-8, nesting (8 and 16 levels) below serde_json's recursion limit. *)
+Theorem C18_json_gds_shape_ok : ty_json_okb gds_library_ty = true.
+Proof. vm_compute. reflexivity. Qed.
+Theorem C18_json_lef_shape_ok : ty_json_okb lef_library_ty = true.
+Proof. vm_compute. reflexivity. Qed.
+
+(** (13) End to end at model level, JSON: [SerializationFormat::Json.to_string] followed by [from_str]
+    (dedent, parse, derive(Deserialize)) or by [save]/[open] (no dedent) returns the library value.
+    [val_textb v]: every string of [v] is UTF-8 (a Rust String always is) and every double is finite (GDSII
+    reals are; serde_json writes NaN/inf as null).  GDSII: no other condition.  LEF: outside the two
+    known-finding classes ([skipped_default], as in layer 1). *)
+Theorem C18_json_gds_end_to_end : forall fmt_f64 parse_f64 v,
+  wt gds_library_ty v = true -> val_textb v = true ->
+  (forall b, In b (val_floats v) -> float_pair_ok fmt_f64 parse_f64 b) ->
+  json_from_str_ty parse_f64 gds_library_ty (json_to_string fmt_f64 gds_library_ty v) = Some v /\
+  json_open_ty parse_f64 gds_library_ty (json_to_string fmt_f64 gds_library_ty v) = Some v.
+Proof.
+  intros fmt_f64 parse_f64 v Hwt Hv Hf.
+  apply json_typed_roundtrip; [exact C18_gds_shape_ok | exact C18_json_gds_shape_ok | exact Hwt | | exact Hv | exact Hf].
+  apply (C18_no_lossy_fields "GdsLibrary"); [exact C18_gds_lossy_fields | exact Hwt].
+Qed.
+
+Theorem C18_json_lef_end_to_end : forall fmt_f64 parse_f64 v,
+  wt lef_library_ty v = true -> skipped_default lef_library_ty v = true -> val_textb v = true ->
+  (forall b, In b (val_floats v) -> float_pair_ok fmt_f64 parse_f64 b) ->
+  json_from_str_ty parse_f64 lef_library_ty (json_to_string fmt_f64 lef_library_ty v) = Some v /\
+  json_open_ty parse_f64 lef_library_ty (json_to_string fmt_f64 lef_library_ty v) = Some v.
+Proof.
+  intros fmt_f64 parse_f64 v Hwt Hsk Hv Hf.
+  apply json_typed_roundtrip; [exact C18_lef_shape_ok | exact C18_json_lef_shape_ok | exact Hwt | exact Hsk | exact Hv | exact Hf].
+Qed.
+
+(** (14) The nesting bound of (9) is sharp: 128 nested arrays are printed, and refused by the parser
+    (serde_json's RecursionLimitExceeded; confirmed on the implementation by the correspondence run). *)
+Fixpoint nest_seq (n : nat) (v : sval) : sval := match n with O => v | S k => SSeq [nest_seq k v] end.
+Theorem C18_json_depth_limit_sharp :
+  sval_wf (nest_seq 128 SNull) /\ sval_depth (nest_seq 128 SNull) = 128%nat /\
+  json_parse_text (fun _ => None) (json_print (fun _ => EmptyString) (nest_seq 128 SNull)) = JErr /\
+  json_parse_text (fun _ => None) (json_print (fun _ => EmptyString) (nest_seq 127 SNull)) = JOk (nest_seq 127 SNull).
+Proof. vm_compute. repeat split; reflexivity. Qed.
+
+(** Non-vacuity of (9)-(13): a float pair and a value with every kind of node that meet the hypotheses, and the text. *)
+Definition ex_fmt (b : Z) : string :=
+  if (b =? 4607182418800017408)%Z then "1.0" else if (b =? 4516783001660789123)%Z then "1e-6" else "?".
+Definition ex_parse (s : string) : option Z :=
+  if String.eqb s "1.0" then Some 4607182418800017408%Z else if String.eqb s "1e-6" then Some 4516783001660789123%Z else None.
+Definition ex_sval : sval :=
+  SMap [("name", SStr ("a""b\" ++ String (chr 10) (String (chr 0) "é")));
+        ("units", SSeq [SF64 4607182418800017408; SF64 4516783001660789123]);
+        ("n", SInt (-9223372036854775808)); ("u", SInt 18446744073709551615); ("e", SSeq []);
+        ("m", SMap [("k", SNull); ("t", SBool true)])].
+Example C18_json_nonvacuous :
+  sval_ok ex_sval /\
+  (forall b, In b (sval_floats ex_sval) -> float_pair_ok ex_fmt ex_parse b) /\
+  json_print ex_fmt ex_sval =
+"{
+  ""name"": ""a\""b\\\n\u0000é"",
+  ""units"": [
+    1.0,
+    1e-6
+  ],
+  ""n"": -9223372036854775808,
+  ""u"": 18446744073709551615,
+  ""e"": [],
+  ""m"": {
+    ""k"": null,
+    ""t"": true
+  }
+}".
+Proof.
+  split; [vm_compute; reflexivity|]. split; [|vm_compute; reflexivity].
+  intros b Hb. cbn in Hb. destruct Hb as [<- | [<- | []]]; split; vm_compute; reflexivity.
+Qed.
+Definition ex_gds : val :=
+  VList [VS "li""b"; VI 3;
+         VList [VList [VI 2020; VI 1; VI 2; VI 3; VI 4; VI 5]; VList [VI 2021; VI 1; VI 2; VI 3; VI 4; VI 5]];
+         VList [VF 4607182418800017408; VF 4516783001660789123]; VList [];
+         VNull; VNull; VNull; VNull; VNull; VNull; VNull; VNull].
+Example C18_json_end_to_end_nonvacuous :
+  wt gds_library_ty ex_gds = true /\ val_textb ex_gds = true /\
+  (forall b, In b (val_floats ex_gds) -> float_pair_ok ex_fmt ex_parse b) /\
+  json_from_str_ty ex_parse gds_library_ty (json_to_string ex_fmt gds_library_ty ex_gds) = Some ex_gds.
+Proof.
+  split; [vm_compute; reflexivity|]. split; [vm_compute; reflexivity|]. split; [|vm_compute; reflexivity].
+  intros b Hb. cbn in Hb. destruct Hb as [<- | [<- | []]]; split; vm_compute; reflexivity.
+Qed.
+
+(** Statements pinned *)
+Check C18_json_parse_print : forall (fmt_f64 : Z -> string) (parse_f64 : string -> option Z) (v : sval),
+  sval_ok v -> (forall b, In b (sval_floats v) -> float_pair_ok fmt_f64 parse_f64 b) ->
+  json_parse_text parse_f64 (json_print fmt_f64 v) = JOk v.
+Check C18_json_parse_print_all : forall (fmt_f64 : Z -> string) (parse_f64 : string -> option Z),
+  (forall b, f64_finiteb b = true -> float_pair_ok fmt_f64 parse_f64 b) ->
+  forall v, sval_ok v -> json_parse_text parse_f64 (json_print fmt_f64 v) = JOk v.
+
 Print Assumptions C18_de_ser.
 Print Assumptions C18_no_lossy_fields.
 Print Assumptions C18_gds_shape_ok.
@@ -78,3 +235,14 @@ Print Assumptions C18_gds_roundtrip.
 Print Assumptions C18_lef_lossy_fields.
 Print Assumptions C18_lef_roundtrip.
 Print Assumptions C18_skip_always_refuted.
+Print Assumptions C18_json_unescape_escape.
+Print Assumptions C18_json_int_token.
+Print Assumptions C18_json_parse_print.
+Print Assumptions C18_json_dedent_print.
+Print Assumptions C18_json_from_str_print.
+Print Assumptions C18_json_parse_print_all.
+Print Assumptions C18_json_gds_shape_ok.
+Print Assumptions C18_json_lef_shape_ok.
+Print Assumptions C18_json_gds_end_to_end.
+Print Assumptions C18_json_lef_end_to_end.
+Print Assumptions C18_json_depth_limit_sharp.
